@@ -115,4 +115,128 @@ CANARIES = {
             "cases": ["momentum/diagonal/2"], "what": "Riemannian momenta drawn with the inverse metric as covariance",
         },
     },
+    "C01": {
+        "multinomial_uses_inner_weight": {
+            "module": "mici.transitions",
+            "old": "        accept_outer_prob = self._weight_ratio(outer_tree.weight, tree.weight)",
+            "new": "        accept_outer_prob = self._weight_ratio(inner_tree.weight, tree.weight)",
+            "cases": ["multinomial/depth2/extraTrue"], "what": "progressive sampling weighs the inner instead of the outer sub-tree",
+        },
+        "metropolis_inverted_ratio": {
+            "module": "mici.transitions",
+            "old": "            h_diff = h_init - h_final",
+            "new": "            h_diff = h_final - h_init",
+            "cases": ["metropolis/static/2"], "what": "Metropolis accept ratio inverted",
+        },
+        "subtree_check_momentum_sum": {
+            "module": "mici.transitions",
+            "old": "                neg_subtree.sum_mom + pos_subtree.negative.mom,",
+            "new": "                neg_subtree.sum_mom,",
+            "cases": ["multinomial/depth2/extraTrue"], "what": "extra sub-tree check gets a momentum sum that misses one state",
+        },
+        "n_step_statistic": {
+            "module": "mici.transitions",
+            "old": "                stats[\"n_step\"] += 1",
+            "new": "                stats[\"n_step\"] += 2",
+            "cases": ["slice/depth1/extraTrue"], "what": "reported step count differs from steps taken",
+        },
+        "slice_biased_selection": {
+            "module": "mici.transitions",
+            "old": "        return min(numerator / denominator, 1) if denominator > 0 else min(numerator, 1)",
+            "new": "        return min(numerator, 1)",
+            "cases": ["slice/depth2/extraFalse"], "what": "slice sampler always moves to a new valid sub-tree",
+        },
+    },
+    "C02": {
+        "composition_not_palindromic": {
+            "module": "mici.integrators",
+            "old": "        self.coefficients = coefficients + coefficients[-2::-1]",
+            "new": "        self.coefficients = coefficients + coefficients[:-1]",
+            "cases": ["rev/symcomp2/euclid/2/diag/n1/d1"], "what": "composition coefficients repeated instead of mirrored",
+        },
+        "leapfrog_asymmetric": {
+            "module": "mici.integrators",
+            "old": "        self.system.h1_flow(state, 0.5 * time_step)\n        self.system.h2_flow(state, time_step)\n        self.system.h1_flow(state, 0.5 * time_step)",
+            "new": "        self.system.h1_flow(state, 0.25 * time_step)\n        self.system.h2_flow(state, time_step)\n        self.system.h1_flow(state, 0.75 * time_step)",
+            "cases": ["rev/leapfrog/euclid/2/diag/n1/d1"], "what": "unequal half kicks",
+        },
+        "step_mutates_input": {
+            "module": "mici.integrators",
+            "old": "        state = state.copy()\n        self._step(state, state.dir * self.step_size)",
+            "new": "        self._step(state, state.dir * self.step_size)",
+            "cases": ["rev/leapfrog/euclid/1/identity/n1/d1"], "what": "step works in place on the caller's state",
+        },
+        "constrained_final_projection_missing": {
+            "module": "mici.integrators",
+            "old": "        self._step_b(state, time_step)\n        self._step_a(state, 0.5 * time_step)",
+            "new": "        self._step_b(state, time_step)\n        self.system.h1_flow(state, 0.5 * time_step)",
+            "cases": ["constrained/newton/diag/inner1"], "what": "last half kick not projected onto the cotangent space",
+        },
+        "implicit_midpoint_two_forward_halves": {
+            "module": "mici.integrators",
+            "old": "        self._step_a_fwd(state, time_step / 2)\n        self._step_a_adj(state, time_step / 2)",
+            "new": "        self._step_a_fwd(state, time_step / 2)\n        self._step_a_fwd(state, time_step / 2)",
+            "cases": ["series_rev/implicit_midpoint/euclid/1"], "what": "implicit Euler twice instead of implicit + explicit half step",
+        },
+    },
+    "C03": {
+        "h1_flow_scales_momentum": {
+            "module": "mici.systems",
+            "old": "        state.mom -= dt * self.dh1_dpos(state)",
+            "new": "        state.mom = (1 + dt) * state.mom - dt * self.dh1_dpos(state)",
+            "cases": ["flows/euclid/1/diag"], "what": "kick rescales the momentum (not volume preserving)",
+        },
+        "gauss_rotation_amplitude": {
+            "module": "mici.systems",
+            "old": "            cos_omega_dt * eigvec_trans_pos + (sin_omega_dt * omega) * eigvec_trans_mom",
+            "new": "            cos_omega_dt * eigvec_trans_pos + sin_omega_dt * eigvec_trans_mom",
+            "cases": ["flows/gauss/1/diag"], "what": "Gaussian-split rotation with a wrong amplitude",
+        },
+        "leapfrog_bypasses_flow": {
+            "module": "mici.integrators",
+            "old": "        self.system.h2_flow(state, time_step)\n        self.system.h1_flow(state, 0.5 * time_step)",
+            "new": "        state.pos = state.pos + 2 * time_step * self.system.dh2_dmom(state)\n        self.system.h1_flow(state, 0.5 * time_step)",
+            "cases": ["structure/leapfrog"], "what": "step writes the position outside the component flows",
+        },
+    },
+    "C06": {
+        "leapfrog_becomes_symplectic_euler": {
+            "module": "mici.integrators",
+            "old": "        self.system.h1_flow(state, 0.5 * time_step)\n        self.system.h2_flow(state, time_step)\n        self.system.h1_flow(state, 0.5 * time_step)",
+            "new": "        self.system.h1_flow(state, time_step)\n        self.system.h2_flow(state, time_step)",
+            "cases": ["order2/leapfrog/euclid/1/diag"], "what": "first-order splitting",
+        },
+        "implicit_leapfrog_full_steps": {
+            "module": "mici.integrators",
+            "old": "        half_time_step = 0.5 * time_step",
+            "new": "        half_time_step = time_step",
+            "cases": ["order2/implicit_leapfrog/euclid/1"], "what": "the original defect: all sub-steps take the full time step",
+        },
+        "composition_coefficient_sign": {
+            "module": "mici.integrators",
+            "old": "            0.5 - sum(free_coefficients[(n_free_coefficients) % 2 :: 2]),",
+            "new": "            0.5 + sum(free_coefficients[(n_free_coefficients) % 2 :: 2]),",
+            "cases": ["coefficients/2/False"], "what": "derived coefficient with the wrong sign: weights no longer sum to one",
+        },
+    },
+    "C20": {
+        "log1m_exp_dead_branch": {
+            "module": "mici.utils",
+            "old": "    if val > -LOG_2:\n        return log(-expm1(val))",
+            "new": "    if val > LOG_2:\n        return log(-expm1(val))",
+            "cases": ["precision/log1m_exp"], "what": "the original defect: expm1 branch unreachable, precision lost as val -> 0-",
+        },
+        "log1p_exp_wrong_branch": {
+            "module": "mici.utils",
+            "old": "    if val > 0.0:\n        return val + log1p(exp(-val))",
+            "new": "    if val > 0.0:\n        return val + log1p(exp(val))",
+            "cases": ["precision/log1p_exp"], "what": "wrong sign inside the large-argument branch",
+        },
+        "logrep_sub_order": {
+            "module": "mici.utils",
+            "old": "            if self.log_val >= other.log_val:\n                return LogRepFloat(log_val=log_diff_exp(self.log_val, other.log_val))",
+            "new": "            if self.log_val >= other.log_val:\n                return LogRepFloat(log_val=log_diff_exp(other.log_val, self.log_val))",
+            "cases": ["algebra"], "what": "LogRepFloat subtraction with swapped operands",
+        },
+    },
 }
